@@ -30,10 +30,11 @@ def cases(draw, tier):
     if draw(st.integers(0, 5)) == 0:
         sc = draw(gen.state_case(types=[t], n=(1, nmax), nh=(1, 3), na=(1, 3), scales=[0.5, 2.0, 8.0, 30.0], bound=34.0))     # strongly polarised states: Born probabilities down to ~1e-15
     else:
-        sc = draw(gen.state_case(types=[t], n=(1, nmax), nh=(1, 3), na=(1, 3), scales=[0.05, 0.5, 0.5, 2.0], bound=30.0))
+        sc = draw(gen.state_case(types=[t], n=(1, nmax), nh=(1, 3), na=(1, 3), scales=[0.05, 0.5, 0.5, 2.0], bound=30.0, unitaries=True))     # user-added / overridden unitaries in half of the complex/mixed cases
     alt = draw(gen.state_case(types=[t], n=(sc["n"], sc["n"]), nh=(sc["nh"], sc["nh"]), na=(sc.get("na", 1), sc.get("na", 1)), scales=[0.5, 2.0], bound=30.0))
     n = sc["n"]
     D = 2 ** n
+    alpha = "XYZ" + "".join(sorted(k for k in (sc.get("unitaries") or {}) if k not in "XYZ"))
     fl = st.floats(-1, 1, allow_nan=False, width=64)
     c = {"state": sc, "phi": draw(st.floats(-3.2, 3.2, allow_nan=False, width=64)), "alt": {"am": alt["am"], "ph": alt.get("ph")}}
     if t == "density":
@@ -49,7 +50,7 @@ def cases(draw, tier):
     if t == "positive":
         c["bases"] = None
     else:
-        bl = draw(st.one_of(st.none(), st.lists(gen.basis_string(n), min_size=1, max_size=4, unique=True)))
+        bl = draw(st.one_of(st.none(), st.lists(gen.basis_string(n, alpha), min_size=1, max_size=4, unique=True)))
         if bl is not None and draw(st.booleans()) and "Z" * n not in bl:
             bl.insert(draw(st.integers(0, len(bl))), "Z" * n)      # the reference basis is what every real bases list contains
         c["bases"] = bl
@@ -60,9 +61,9 @@ def cases(draw, tier):
     N = draw(st.integers(1, 6)) if draw(st.integers(0, 19)) else draw(st.integers(257, 700))     # occasionally a large data set
     U01 = st.floats(0, 1, exclude_max=True, allow_nan=False, width=64)
     if N <= 6:
-        c["rows"] = [{"basis": ("Z" * n if t == "positive" or draw(st.integers(0, 2)) == 0 else draw(gen.basis_string(n))), "u": draw(U01)} for _ in range(N)]
+        c["rows"] = [{"basis": ("Z" * n if t == "positive" or draw(st.integers(0, 2)) == 0 else draw(gen.basis_string(n, alpha))), "u": draw(U01)} for _ in range(N)]
     else:
-        bpool = ["Z" * n] + ([draw(gen.basis_string(n)) for _ in range(2)] if t != "positive" else [])
+        bpool = ["Z" * n] + ([draw(gen.basis_string(n, alpha)) for _ in range(2)] if t != "positive" else [])
         us = draw(st.lists(U01, min_size=N, max_size=N))
         c["rows"] = [{"basis": bpool[(i * 7) % len(bpool)], "u": us[i]} for i in range(N)]
     c["nll_with_bases"] = t != "positive" and draw(st.integers(0, 3)) > 0
@@ -89,7 +90,7 @@ def check(c):
     state = gen.build_state(sc)
     am, ph = gen.ref_nets(sc)
     V = R.bits(n)
-    ud = R.default_unitaries()
+    ud = gen.ref_unitary_dict(sc)
     space = None if c["space_default"] else state.generate_hilbert_space()
     excluded = 0
     dens = t == "density"
